@@ -151,6 +151,18 @@ func deliveries(thorough bool) []delivery {
 			return s
 		}})
 	}
+	// sources that now and then return (0, nil) before carrying on - legal for an io.Reader, and what
+	// wsutil.Reader.Read does once for every control frame between two fragments: any number of such
+	// reads may be scattered over a long message
+	for _, ch := range []int{1, 7} {
+		ch := ch
+		out = append(out, delivery{fmt.Sprintf("chunk%d-plainreader-idle-read-every-3rd-call", ch), func(d []byte) io.Reader {
+			s := env.NewSrc(d)
+			s.Policy = env.FixedChunk(ch)
+			s.ZeroEvery = 3
+			return s
+		}})
+	}
 	return out
 }
 
@@ -518,7 +530,7 @@ func main() {
 				}
 			})
 			t.Outcome("recovered")
-			t.Note(fmt.Sprintf("%d compressed sources: the library writer's own outputs, python zlib at levels 0/1/6/9 sync-flushed after each part, harness-encoded stored blocks at every split, fixed-Huffman blocks, BFINAL+empty block; 11 delivery modes + a cut at every position for streams <=64 bytes", len(srcs)))
+			t.Note(fmt.Sprintf("%d compressed sources: the library writer's own outputs, python zlib at levels 0/1/6/9 sync-flushed after each part, harness-encoded stored blocks at every split, fixed-Huffman blocks, BFINAL+empty block; 18 delivery modes (incl. two whose every third Read returns 0, nil) + a cut at every position for streams <=64 bytes", len(srcs)))
 		})
 
 		// One Reader serves many messages (Reset between them). However the previous message
